@@ -206,8 +206,8 @@ func otherKeys(kp keyPair) []crypto.PublicKey {
 }
 
 func TestC02_Splices(t *testing.T) {
-	st := NewStats("C02", "TestC02_Splices", "rapid: two signed tokens (same or different key / algorithm / claims); splice protected, payload or signature content between them; replace the signature by zeros, random bytes, the other token's signature, right-length wrong bytes; 1..8 random byte edits; correctly signed envelopes that carry the algorithm only in the unprotected header or nowhere, a nil payload, an empty signature; verification with every other key (same type, other types, nil, non-keys). Oracle: independent splitter decides whether covered bytes changed; wrong key never verifies; alg-less/payload-less/signature-less never verify. Non-trivial = the altered token decodes; distinct = (alg, mutation kind, details)")
-	st.Require = []string{"splice-payload", "splice-protected", "splice-signature", "sig-zero", "sig-random", "byte-edits", "alg-unprotected-only", "alg-nowhere", "nil-payload", "empty-signature", "wrong-key", "decoded-verify-failed"}
+	st := NewStats("C02", "TestC02_Splices", "rapid: two signed tokens (same or different key / algorithm / claims); splice protected, payload or signature content between them; replace the signature by zeros, random bytes, the other token's signature, right-length wrong bytes; 1..8 random byte edits; protected header / payload re-encoded into different but equivalent bytes (non-preferred widths, long or indefinite map head, permuted keys) under the original signature; correctly signed envelopes that carry the algorithm only in the unprotected header or nowhere, a nil payload, an empty signature; verification with every other key (same type, other types, nil, non-keys). Oracle: independent splitter decides whether covered bytes changed; wrong key never verifies; alg-less/payload-less/signature-less never verify. Non-trivial = the altered token decodes; distinct = (alg, mutation kind, details)")
+	st.Require = []string{"splice-payload", "splice-protected", "splice-signature", "sig-zero", "sig-random", "byte-edits", "alg-unprotected-only", "alg-nowhere", "nil-payload", "empty-signature", "wrong-key", "decoded-verify-failed", "equiv-protected", "equiv-payload"}
 	defer st.Flush(t)
 	rapid.Check(t, func(t *rapid.T) {
 		algA := rapid.SampledFrom([]int64{icose.EdDSA, icose.EdDSA, icose.ES256, icose.ES256, icose.PS256, icose.ES384, icose.ES512, icose.PS384, icose.PS512}).Draw(t, "algA")
@@ -217,7 +217,7 @@ func TestC02_Splices(t *testing.T) {
 		if err != nil {
 			t.Fatalf("cannot sign: %v", err)
 		}
-		kind := rapid.SampledFrom([]string{"splice-payload", "splice-protected", "splice-signature", "sig-zero", "sig-random", "sig-flip", "byte-edits", "alg-unprotected-only", "alg-nowhere", "nil-payload", "empty-signature", "wrong-key", "reencode"}).Draw(t, "kind")
+		kind := rapid.SampledFrom([]string{"splice-payload", "splice-protected", "splice-signature", "sig-zero", "sig-random", "sig-flip", "byte-edits", "alg-unprotected-only", "alg-nowhere", "nil-payload", "empty-signature", "wrong-key", "reencode", "equiv-protected", "equiv-protected", "equiv-payload"}).Draw(t, "kind")
 		var mut []byte
 		detail := ""
 		rebuild := func(prot, pay, sig []byte) []byte {
@@ -265,6 +265,61 @@ func TestC02_Splices(t *testing.T) {
 				mut[pos] = genByte.Draw(t, "byte")
 				detail += fmt.Sprintf("%d,", pos)
 			}
+		case "equiv-protected", "equiv-payload":
+			// the covered BYTES differ although the decoded content is the
+			// same (non-preferred integer widths, long map head, indefinite
+			// map, permuted keys): a verifier that checks the signature over a
+			// re-encoding of what it decoded would accept these
+			src := a.Parts.Protected
+			if kind == "equiv-payload" {
+				src = a.Parts.Payload
+			}
+			n, _, rerr := icbor.Read(src)
+			if rerr != nil || n.Kind != icbor.KMap {
+				t.Fatalf("VERIF-INFRA: own token part does not parse: %v", rerr)
+			}
+			how := rapid.SampledFrom([]string{"value-long-head", "key-long-head", "map-long-head", "indefinite-map", "permute"}).Draw(t, "how")
+			switch how {
+			case "value-long-head", "key-long-head":
+				i := rapid.IntRange(0, len(n.Pairs)-1).Draw(t, "pair")
+				side := 1
+				if how == "key-long-head" {
+					side = 0
+				}
+				if x := n.Pairs[i][side]; x.Kind == icbor.KSimple || x.Kind == icbor.KFloat {
+					n.Pairs[i][0] = n.Pairs[i][0].WithHead(8)
+				} else {
+					n.Pairs[i][side] = x.WithHead(rapid.SampledFrom([]int{1, 2, 4, 8}).Draw(t, "w"))
+					if x.Kind == icbor.KBytes || x.Kind == icbor.KText || x.Kind == icbor.KArray || x.Kind == icbor.KMap {
+						n.Pairs[i][side] = x.WithHead(8)
+					} else if x.U > 23 {
+						n.Pairs[i][side] = x.WithHead(8)
+					}
+				}
+			case "map-long-head":
+				n = n.WithHead(rapid.SampledFrom([]int{1, 2, 4, 8}).Draw(t, "w"))
+				if len(n.Pairs) > 23 {
+					n = n.WithHead(8)
+				}
+			case "indefinite-map":
+				n = n.WithIndef()
+			default:
+				if len(n.Pairs) < 2 {
+					n = n.WithHead(2)
+				} else {
+					n.Pairs = append(n.Pairs[1:], n.Pairs[0])
+				}
+			}
+			enc := icbor.Encode(n)
+			if bytes.Equal(enc, src) {
+				t.Skip("re-encoding is identical")
+			}
+			if kind == "equiv-protected" {
+				mut = rebuild(enc, a.Parts.Payload, a.Parts.Signature)
+			} else {
+				mut = rebuild(a.Parts.Protected, enc, a.Parts.Signature)
+			}
+			detail = how
 		case "reencode":
 			// same covered bytes, different outer encoding: no verdict, but
 			// exercises the "covered-bytes-unchanged" path of the oracle
